@@ -351,6 +351,40 @@ def load_checks(pid):
     import importlib
 
     importlib.import_module(f"checks.{pid.lower()}")
+    _register_regressions(pid)
+
+
+def _register_regressions(pid):
+    """Family `regressions`: every configuration recorded under replays/ for this property (violations found earlier, in
+    any tier or against a seeded change) is re-run in every tier, so a defect that was found once by the deeper tier is
+    from then on also decided by the quick one."""
+    if any(f.name == "regressions" for f in FAMILIES.get(pid, [])):
+        return
+    by_name = {f.name: f for f in FAMILIES.get(pid, [])}
+
+    def enum(tier, seed):
+        import glob
+
+        seen = set()
+        for path in sorted(glob.glob(os.path.join(VERIF, "replays", f"{pid}_*.json"))):
+            with open(path) as f:
+                body = json.load(f)
+            key = json.dumps([body.get("family"), body.get("cfg")], sort_keys=True)
+            if body.get("property") != pid or body.get("family") not in by_name or key in seen:
+                continue
+            seen.add(key)
+            yield (body["family"], _tuplify(body["cfg"]))
+
+    def case(ctx, cfg):
+        name, inner = cfg
+        outer_fam, outer_cfg = ctx.fam, ctx.cfg
+        ctx.fam, ctx.cfg = name, inner  # a failure is recorded (and replayed) as a configuration of the original family
+        try:
+            by_name[name].case(ctx, inner)
+        finally:
+            ctx.fam, ctx.cfg = outer_fam, outer_cfg
+
+    FAMILIES.setdefault(pid, []).append(Family(pid, "regressions", enum, case, ("quick", "thorough")))
 
 
 def run_check(pid, tier, seed, time_cap=None):
@@ -414,7 +448,7 @@ def run_check(pid, tier, seed, time_cap=None):
         skipped += r["skipped"]
         if r["capped"] is not None:
             capped[r["fam"]] = min(capped.get(r["fam"], 1 << 60), r["capped"])
-    fails.sort(key=lambda f: (order[f["family"]], f["idx"], f["sig"]))
+    fails.sort(key=lambda f: (order.get(f["family"], len(order)), f["idx"], f["sig"]))
 
     findings = load_findings()
     known_hit, new = {}, list(fails)
